@@ -551,8 +551,14 @@ impl<'p> CoroutinePool<'p> {
             let co_name = *info;
             // todo windows support
             #[allow(unused_variables)]
+            // the request is recorded first: should the signal below find another coroutine on
+            // the thread, the scheduler still cancels this one at its next turn
+            Scheduler::try_cancel_coroutine(co_name);
             if let Some(pthread) = Scheduler::get_scheduling_thread(co_name) {
                 // 发送SIGVTALRM信号，在运行时取消任务
+                #[cfg(unix)]
+                crate::coroutine::CANCEL_SIGNAL_TARGET
+                    .store(co_name, Ordering::Release);
                 #[cfg(unix)]
                 if nix::sys::pthread::pthread_kill(pthread, nix::sys::signal::Signal::SIGVTALRM)
                     .is_ok()
@@ -568,8 +574,6 @@ impl<'p> CoroutinePool<'p> {
                     );
                 }
             } else {
-                // 添加到待取消队列
-                Scheduler::try_cancel_coroutine(co_name);
                 warn!(
                     "Attempt to cancel task:{} running on coroutine:{}, cancelling...",
                     task_id, co_name
